@@ -19,14 +19,14 @@ serializers = {
 }
 
 def _complex_from_notation(value: dict) -> complex | None:
-    keys = sorted(list(value.keys()))
-    if keys == sorted(['real', 'imag']):
+    keys = set(value.keys())
+    if keys == {'real', 'imag'}:
         return complex(value['real'], value['imag'])
-    if keys == sorted(['abs', 'phase']):
+    if keys == {'abs', 'phase'}:
         if value['abs'] < 0:
             raise ValueError("abs value may not be negative")
         return value['abs'] * complex(np.cos(value['phase']), np.sin(value['phase']))
-    if keys == sorted(['abs', 'phase_deg']):
+    if keys == {'abs', 'phase_deg'}:
         if value['abs'] < 0:
             raise ValueError("abs value may not be negative")
         phase_rad = np.deg2rad(value['phase_deg'])
